@@ -1,2 +1,25 @@
 #!/usr/bin/env python3
-print("setup: nothing to build yet")
+"""Run once after a fresh restore, offline: regenerate the Lean definitions from /repo, build the Lean library, the
+model driver and the harness binaries of the quick tier (everything is cached under /verif/build and lean/.lake)."""
+import os, sys, time
+sys.path.insert(0, os.path.dirname(os.path.abspath(__file__)))
+from vlib import common as C
+
+def main():
+    t = time.time()
+    st = C.translate()
+    print('translate:', 'ok' if st.get('ok') else st.get('error'))
+    ok, log = C.lake_build(['AmcVerif', 'amcdriver'])
+    print('lake build:', 'ok' if ok else log[-3000:])
+    try:
+        from props import vcommon
+        from vlib import vec as V
+        bins, errs = V.build(vcommon.cfgs_quick())
+        print('vector harness binaries:', len(bins), 'errors:', len(errs))
+    except Exception as e:
+        print('harness prebuild skipped:', e)
+    print(f'setup done in {time.time() - t:.0f}s')
+    return 0 if ok else 1
+
+if __name__ == '__main__':
+    sys.exit(main())
